@@ -8,3 +8,18 @@ t = subprocess.run(["python3", os.path.join(H, "tools", "design_tables.py")], ca
 a, b = s.index("<!-- TABLES:BEGIN -->"), s.index("<!-- TABLES:END -->")
 s = s[:a] + "<!-- TABLES:BEGIN -->\n\n" + t + "\n" + s[b:]
 open(p, "w").write(s)
+# seeded-change statistics line (10.4)
+import glob, json, re
+n = miss = caught_now = checked = 0
+for f in glob.glob(os.path.join(H, "seeded", "*", "meta.json")):
+    m = json.load(open(f)); n += 1
+    if str(m["detected_by"]).upper().startswith("MISSED"): miss += 1
+    dn = m.get("detected_now") or {}
+    if dn:
+        checked += 1
+        if any(v["verdict"] == "violated" for v in dn.values()): caught_now += 1
+line = ("Of the %d kept changes, %d were caught by the quick tier as it stood when the change was delivered and "
+        "%d were missed; at the last `tools/seed_recheck.py` run %d of the %d re-run changes are caught.\n"
+        % (n, n - miss, miss, caught_now, checked))
+s = re.sub(r"<!-- SEEDSTATS -->\n(?:Of the \d+ kept changes[^\n]*\n)?", "<!-- SEEDSTATS -->\n" + line, s)
+open(p, "w").write(s)
